@@ -265,4 +265,104 @@ theorem stack_sorted (desc : Bool) (sr : List (Stats × Run))
       · simp only [if_true] at hh
         simp [dirLe, keyLe]; omega
 
+/-! ### the live-null scan and the stacking decision -/
+
+theorem mem_liveDocs {α} (l : List α) (al : List Bool) (x : α) (h : x ∈ liveDocs l al) : x ∈ l := by
+  induction l generalizing al with
+  | nil => cases al <;> simp [liveDocs] at h
+  | cons a as ih =>
+    cases al with
+    | nil => simp [liveDocs] at h
+    | cons b bs =>
+      cases b
+      · simp only [liveDocs, Bool.false_eq_true, if_false] at h
+        exact List.mem_cons_of_mem _ (ih bs h)
+      · simp only [liveDocs, if_true, List.mem_cons] at h
+        rcases h with rfl | h
+        · simp
+        · exact List.mem_cons_of_mem _ (ih bs h)
+
+theorem liveDocs_no_deletes {α} (l : List α) (al : List Bool) (hlen : l.length = al.length)
+    (h : hasDeletes al = false) : liveDocs l al = l := by
+  induction l generalizing al with
+  | nil => cases al <;> rfl
+  | cons a as ih =>
+    cases al with
+    | nil => simp at hlen
+    | cons b bs =>
+      simp at hlen
+      cases b
+      · simp [hasDeletes] at h
+      · have hb : hasDeletes bs = false := by simpa [hasDeletes] using h
+        simp [liveDocs, ih bs hlen hb]
+
+theorem liveDocs_sublist {α} (l : List α) (al : List Bool) : List.Sublist (liveDocs l al) l := by
+  induction l generalizing al with
+  | nil => cases al <;> simp [liveDocs]
+  | cons a as ih =>
+    cases al with
+    | nil => simp [liveDocs]
+    | cons b bs =>
+      cases b
+      · simp only [liveDocs, Bool.false_eq_true, if_false]
+        exact (ih bs).cons _
+      · simp only [liveDocs, if_true]
+        exact (ih bs).cons_cons _
+
+/-- the scan is exact: it answers `true` iff some live document has no value -/
+theorem hasLiveNulls_iff (c : SegCol) (hlen : c.keys.length = c.alive.length) (hcard : CardOk c)
+    (hnm : c.card ≠ .multivalued) :
+    hasLiveNulls c.card c.keys c.alive = true ↔ ∃ k ∈ c.liveKeys, k = none := by
+  unfold SegCol.liveKeys
+  cases hc : c.card with
+  | multivalued => exact absurd hc hnm
+  | full =>
+    simp only [hasLiveNulls, Bool.false_eq_true, false_iff]
+    rintro ⟨k, hk, rfl⟩
+    have : ∀ k ∈ c.keys, k.isSome = true := by simpa [CardOk, hc] using hcard
+    have := this none (mem_liveDocs _ _ _ hk)
+    simp at this
+  | optional =>
+    have hex : ∃ k ∈ c.keys, k = none := by simpa [CardOk, hc] using hcard
+    simp only [hasLiveNulls]
+    by_cases hd : hasDeletes c.alive = true
+    · simp only [hd, Bool.not_true, Bool.false_eq_true, if_false, List.any_eq_true]
+      constructor
+      · rintro ⟨k, hk, hn⟩
+        exact ⟨k, hk, by cases k <;> simp_all⟩
+      · rintro ⟨k, hk, rfl⟩
+        exact ⟨none, hk, rfl⟩
+    · have hd' : hasDeletes c.alive = false := by
+        cases h : hasDeletes c.alive with
+        | true => exact absurd h hd
+        | false => rfl
+      simp only [hd', Bool.not_false, if_true, true_iff]
+      rw [liveDocs_no_deletes _ _ hlen hd']
+      exact hex
+
+theorem any_false_forall {α} (l : List α) (p : α → Bool) (h : l.any p = false) : ∀ x ∈ l, p x = false := by
+  intro x hx
+  cases hp : p x with
+  | false => rfl
+  | true =>
+    have : l.any p = true := List.any_eq_true.2 ⟨x, hx, hp⟩
+    rw [this] at h; cases h
+
+/-- nulls first ascending / last descending in any sorted key sequence -/
+theorem sorted_nulls_asc (ks : List SKey) (h : sortedKeys false ks) (i j : Nat) (hij : i < j)
+    (hj : j < ks.length) (hnone : ks[j] = none) : ks[i]'(by omega) = none := by
+  have := List.pairwise_iff_getElem.1 h i j (by omega) hj hij
+  rw [hnone] at this
+  cases hk : ks[i]'(by omega) with
+  | none => rfl
+  | some v => rw [hk] at this; simp [dirLe, keyLe] at this
+
+theorem sorted_nulls_desc (ks : List SKey) (h : sortedKeys true ks) (i j : Nat) (hij : i < j)
+    (hj : j < ks.length) (hnone : ks[i]'(by omega) = none) : ks[j] = none := by
+  have := List.pairwise_iff_getElem.1 h i j (by omega) hj hij
+  rw [hnone] at this
+  cases hk : ks[j] with
+  | none => rfl
+  | some v => rw [hk] at this; simp [dirLe, keyLe] at this
+
 end TantivyModel.Sorted
